@@ -24,7 +24,7 @@ import (
 func init() {
 	register(stream{
 		name: "chain",
-		rule: "real signed delegations (sealed, then decoded) and invocations over a pool of 5 Ed25519 principals, checked with ExecutionAllowed / ExecutionAllowedWithArgsHook against a map-backed loader. Families: (principals) every chain of ≤ K links (K=2 quick, 3 thorough) over every (issuer, audience, subject∈{0,1,2,absent}) assignment × every invocation (issuer, subject) with a varying audience; (commands) conforming chains of 1–3 links with every assignment of a 6-command lattice (top, parent, child, sibling, shared textual prefix) to invocation and links; (time) every present/absent/past/future combination of not-before and expiration on the invocation and each link; (policy) constraining statements distributed over every link × argument maps, with and without an argument hook (replacing, failing); (random) chains of ≤ 8 (40 thorough) links with 0–2 deviations of any kind at any position, missing and duplicated proofs, irrelevant fields varied; (histories) the same invocation token validated several times while the loader's content, the argument hook and the wall clock (a bound two seconds away) change between validations. Added later: every scenario is decided FIVE ways on one token (twice in a row; through the hook entry point with an identity hook; with a hook that first validates an unrelated invocation; with a hook that first validates the scenario's repaired twin) and each verdict is held against the model; after construction the caller adds a key to the Args value it handed in (the token must not change); (twins) principals 5–9 = the key bytes of 0–4 under another key-type codec at every naming position; (key-types) RSA, P-256 and secp256k1 principals at every role, delegations decoded and as constructed; (command-pairs) every ordered pair of valid commands ≤ 4 (5) bytes over {/,a,b} as delegated/invoked and root/leaf, decided one after the other; (after-root, variant-cid, long-then-cut) proofs listed after the root, links named by another CID over the same digest, a 12-link chain alternating with cut versions of itself; (policy-long) 15…1000 always-true statements around the deciding one; (fresh-nbf, iat-future) constructed delegations with not-before = now, invocations issued in the future over not-yet-active links; (shared-policies) delegations built from policy slices that share one backing array; IsValidAt probes at years 1…100000 and 2^53-1 s.; (policy-optional) every operator over an optional selector on missing, null and present arguments at every link; (policy-neighbours) neighbouring links with policies of the same shape over different arguments, and the same statement over values of different kinds that print alike (100 / 100.0, bytes / their DAG-JSON map); (policy-whole-args) statements over the whole argument map and its value list, arguments supplied sorted and unsorted; (time-far) bounds some 285 years away; (command-multibyte) commands with multi-byte characters sharing prefixes that end inside or right after a character; (command-fold) commands differing only by lowercase letters that Unicode case folding equates (σ/ς, µ/μ, ſ/s, ı/i, θ/ϑ, β/ϐ); (command-concat) (delegated, invoked) pairs whose texts concatenate to the same string, decided one after the other in both orders. (case-twins) principals 13–17 = the identifier of 0–4 with the case of one letter flipped, at every naming position; (aligned-repeat) rule-conforming chains in which one delegation occurs twice or the subject reappears; policies that use one selector twice (first where its failure does not decide) and connectives/quantifiers with one operand over missing required and one over missing optional data. Non-trivial = the chain has ≥ 1 link and at most two clause groups fail. Distinct = distinct protocol lines.",
+		rule: "real signed delegations (sealed, then decoded) and invocations over a pool of 5 Ed25519 principals, checked with ExecutionAllowed / ExecutionAllowedWithArgsHook against a map-backed loader. Families: (principals) every chain of ≤ K links (K=2 quick, 3 thorough) over every (issuer, audience, subject∈{0,1,2,absent}) assignment × every invocation (issuer, subject) with a varying audience; (commands) conforming chains of 1–3 links with every assignment of a 6-command lattice (top, parent, child, sibling, shared textual prefix) to invocation and links; (time) every present/absent/past/future combination of not-before and expiration on the invocation and each link; (policy) constraining statements distributed over every link × argument maps, with and without an argument hook (replacing, failing); (random) chains of ≤ 8 (40 thorough) links with 0–2 deviations of any kind at any position, missing and duplicated proofs, irrelevant fields varied; (histories) the same invocation token validated several times while the loader's content, the argument hook and the wall clock (a bound two seconds away) change between validations. Added later: every scenario is decided FIVE ways on one token (twice in a row; through the hook entry point with an identity hook; with a hook that first validates an unrelated invocation; with a hook that first validates the scenario's repaired twin) and each verdict is held against the model; after construction the caller adds a key to the Args value it handed in (the token must not change); (twins) principals 5–9 = the key bytes of 0–4 under another key-type codec at every naming position; (key-types) RSA, P-256 and secp256k1 principals at every role, delegations decoded and as constructed; (command-pairs) every ordered pair of valid commands ≤ 4 (5) bytes over {/,a,b} as delegated/invoked and root/leaf, decided one after the other; (after-root, variant-cid, long-then-cut) proofs listed after the root, links named by another CID over the same digest, a 12-link chain alternating with cut versions of itself; (policy-long) 15…1000 always-true statements around the deciding one; (fresh-nbf, iat-future) constructed delegations with not-before = now, invocations issued in the future over not-yet-active links; (shared-policies) delegations built from policy slices that share one backing array; IsValidAt probes at years 1…100000 and 2^53-1 s.; (policy-optional) every operator over an optional selector on missing, null and present arguments at every link; (policy-neighbours) neighbouring links with policies of the same shape over different arguments, and the same statement over values of different kinds that print alike (100 / 100.0, bytes / their DAG-JSON map); (policy-beyond-int64) hand-assembled arguments and hook results holding an integer beyond int64 under every ordering statement; (policy-string-slice) slices of string arguments with multi-byte characters; (policy-whole-args) statements over the whole argument map and its value list, arguments supplied sorted and unsorted; (time-far) bounds some 285 years away; (command-multibyte) commands with multi-byte characters sharing prefixes that end inside or right after a character; (command-fold) commands differing only by lowercase letters that Unicode case folding equates (σ/ς, µ/μ, ſ/s, ı/i, θ/ϑ, β/ϐ); (command-concat) (delegated, invoked) pairs whose texts concatenate to the same string, decided one after the other in both orders. (case-twins) principals 13–17 = the identifier of 0–4 with the case of one letter flipped, at every naming position; (aligned-repeat) rule-conforming chains in which one delegation occurs twice or the subject reappears; (loader-error) a loader that reports an error of its own (not \"not found\") for one proof of a conforming chain, with and without handing the token over, both entry points; policies that use one selector twice (first where its failure does not decide) and connectives/quantifiers with one operand over missing required and one over missing optional data. Non-trivial = the chain has ≥ 1 link and at most two clause groups fail. Distinct = distinct protocol lines.",
 		run:  runChainStream,
 		eval: evalChain,
 		cmp:  cmpChain,
@@ -180,6 +180,26 @@ func (l mapLoader) GetDelegation(c cid.Cid) (*delegation.Token, error) {
 	return t, nil
 }
 
+// failingLoader reports, for the listed CIDs, an error that is not ErrDelegationNotFound (an I/O failure, a revocation
+// service that is down …) — with or without the token it holds.
+type failingLoader struct {
+	inner     mapLoader
+	failing   map[cid.Cid]bool
+	withToken map[cid.Cid]bool
+}
+
+var errLoaderIO = errors.New("loader: backing store unavailable")
+
+func (l failingLoader) GetDelegation(c cid.Cid) (*delegation.Token, error) {
+	if l.failing[c] {
+		if l.withToken[c] {
+			return l.inner[c], errLoaderIO
+		}
+		return nil, errLoaderIO
+	}
+	return l.inner.GetDelegation(c)
+}
+
 type sealedDlg struct {
 	tok *delegation.Token // decoded from the sealed bytes
 	cid cid.Cid
@@ -291,6 +311,12 @@ func argsFromNode(n datamodel.Node) (*args.Args, error) {
 		}
 		ks, _ := k.AsString()
 		if err := a.Add(ks, v); err != nil {
+			if strings.Contains(err.Error(), "exceeds safe") || strings.Contains(err.Error(), "out of range") {
+				// a value Add refuses for its size: the caller assembles the Args value by hand (the fields are exported)
+				a.Keys = append(a.Keys, ks)
+				a.Values[ks] = v
+				continue
+			}
 			return nil, err
 		}
 	}
@@ -457,10 +483,21 @@ func evalChain(line string) (out string, rd string) {
 		}
 	}
 	var prf []cid.Cid
+	failing := map[cid.Cid]bool{} // proofs for which the loader reports a failure of its own (not "not found")
+	withToken := map[cid.Cid]bool{}
 	if f[2] != "-" {
 		for i, p := range strings.Split(f[2], ".") {
 			if p == "x" {
 				prf = append(prf, unknownCid(i))
+				continue
+			}
+			if strings.HasPrefix(p, "e") || strings.HasPrefix(p, "n") {
+				// eK: the loader holds delegation K but reports an error of its own TOGETHER with it; nK: it reports that
+				// error and no token. Either way the delegation could not be obtained.
+				k, _ := strconv.Atoi(p[1:])
+				prf = append(prf, table[k].cid)
+				failing[table[k].cid] = true
+				withToken[table[k].cid] = p[0] == 'e'
 				continue
 			}
 			if strings.HasPrefix(p, "v") {
@@ -531,6 +568,10 @@ func evalChain(line string) (out string, rd string) {
 	_ = a.Add("zz-added-by-the-caller-afterwards", int64(1000))
 	if after := inv.Arguments().String(); after != before {
 		return "bad-token-shares-the-callers-arguments", rd
+	}
+	if len(failing) > 0 {
+		return "multi:" + classOf(inv.ExecutionAllowed(failingLoader{loader, failing, withToken})) + "|" + classOf(inv.ExecutionAllowedWithArgsHook(failingLoader{loader, failing, withToken},
+			func(a args.ReadOnly) (*args.Args, error) { return a.WriteableClone(), nil })), rd
 	}
 	switch f[6] {
 	case "-":
@@ -960,6 +1001,37 @@ func runChainStream(c *ctx) error {
 				}
 			}
 		}
+		// arguments that hold an integer beyond int64 (only a hand-assembled Args value or an argument hook can supply one:
+		// Add and the decoders refuse it): it is never ordered with, nor equal to, anything — at every link
+		for _, pl := range []string{"P(clt(2e61,i100))", "P(cle(2e61,i0))", "P(cgt(2e61,i-1))", "P(cge(2e61,i-5))", "P(ceq(2e61,i-1))", "P(A(2e6c,clt(2e,i100)))", "P(!(clt(2e61,i100)))"} {
+			for _, a := range []string{"m(61:i18446744073709551615)", "m(61:i9223372036854775808)", "m(6c:l(i1,i18446744073709551615))", "m(61:i5,6c:l(i1))"} {
+				for n := 1; n <= 2; n++ {
+					for pos := 0; pos < n; pos++ {
+						s := conforming(n)
+						s.links[pos].pol = pl
+						s.args = a
+						c.emitScenario(s, "policy-beyond-int64")
+						h := conforming(n)
+						h.links[pos].pol = pl
+						h.args = "m(61:i5,6c:l(i1))"
+						h.hook = a
+						c.emitScenario(h, "policy-beyond-int64")
+					}
+				}
+			}
+		}
+		// slices of STRING arguments that hold multi-byte characters (a slice counts characters, not bytes)
+		for _, pl := range []string{"P(!(ceq(" + hxs(".p[0:6]") + ",s" + hxsRaw("/café/") + ")))", "P(ceq(" + hxs(".p[0:6]") + ",s" + hxsRaw("/café/") + "))", "P(ceq(" + hxs(".p[1:3]") + ",s" + hxsRaw("ca") + "))",
+			"P(ceq(" + hxs(".p[-3:]") + ",s" + hxsRaw("txt") + "))", "P(k(" + hxs(".p[:5]") + "," + hxs("/caf*") + "))", "P(ceq(" + hxs(".p[4:5]") + ",s" + hxsRaw("é") + "))"} {
+			for _, a := range []string{"m(70:s" + hxsRaw("/café/menu.txt") + ")", "m(70:s" + hxsRaw("/cafe/menu.txt") + ")", "m(70:s" + hxsRaw("/日本/é.txt") + ")", "m(70:s" + hxsRaw("é") + ")"} {
+				for n := 1; n <= 2; n++ {
+					s := conforming(n)
+					s.links[n-1].pol = pl
+					s.args = a
+					c.emitScenario(s, "policy-string-slice")
+				}
+			}
+		}
 		// neighbouring links whose policies have the same shape (one statement of one kind each) over different arguments
 		for _, pair := range [][2]string{
 			{"P(ceq(2e61,i1))", "P(ceq(2e62,s78))"}, {"P(cgt(2e61,i0))", "P(cgt(2e62,i0))"}, {"P(ceq(2e61,i1))", "P(ceq(2e61,i2))"},
@@ -1024,6 +1096,23 @@ func runChainStream(c *ctx) error {
 				t.links[0].cmd = o
 				t.cmd = o
 				c.emitScenario(t, "command-multibyte")
+			}
+		}
+	}
+	// (1e) a loader that FAILS (an error of its own, not "not found") for one proof of an otherwise conforming chain, with and
+	// without handing the token over along with the error: the delegation could not be obtained, the invocation is refused
+	for n := 1; n <= 4; n++ {
+		for j := 0; j < n; j++ {
+			for _, mode := range []string{"e", "n"} {
+				s := conforming(n)
+				for i := 0; i < n; i++ {
+					if i == j {
+						s.prf = append(s.prf, mode+strconv.Itoa(i))
+					} else {
+						s.prf = append(s.prf, strconv.Itoa(i))
+					}
+				}
+				c.emitScenario(s, "loader-error")
 			}
 		}
 	}
@@ -1561,7 +1650,13 @@ func newHistory(f []string) (*history, error) {
 	return h, nil
 }
 
-func (h *history) step(st string) string {
+func (h *history) step(st string) (out string) {
+	// a validation that panics is a validation that did not allow (and is reported as such, with the panic text)
+	defer func() {
+		if r := recover(); r != nil {
+			out = "deny PANIC " + strings.ReplaceAll(strings.ReplaceAll(fmt.Sprint(r), "\n", " "), ";", ",")
+		}
+	}()
 	p := strings.Split(st, "/")
 	loader := mapLoader{}
 	for i, s := range h.table {
